@@ -12,6 +12,8 @@ package interp
 
 import (
 	"bytes"
+	"flag"
+	"io"
 	"path"
 	"reflect"
 	"strings"
@@ -129,4 +131,88 @@ func vh_C13_table() {
 	}
 	vAssert("C13.table.populated", n > 100 && len(stdlib.Symbols["os/os"]) > 50 && len(stdlib.Symbols["fmt/fmt"]) > 10)
 	vAssert("C13.table.no-dangerous-package", bad == 0)
+}
+
+// log and flag redirection: starting from the tables a script really gets
+// (the default table built by the stdlib initialisers), fixStdlib must rebind
+// every function of package log to a private logger writing to Options.Stderr
+// and flag.CommandLine to a private flag set that panics on error (instead of
+// exiting) and prints to Options.Stderr.
+var vhLogFns = []string{"Output", "Print", "Printf", "Println", "Panic", "Panicf", "Panicln", "Fatal", "Fatalf", "Fatalln", "Flags", "Prefix", "SetFlags", "SetPrefix", "SetOutput", "Writer"}
+
+var vhLogFn = 0
+
+func vhCopyTable(key string) map[string]reflect.Value {
+	m := map[string]reflect.Value{}
+	for k, v := range stdlib.Symbols[key] {
+		m[k] = v
+	}
+	return m
+}
+
+func vh_C13_log() {
+	vhResetClock()
+	i := vhNewInterp()
+	var out, errw bytes.Buffer
+	i.stdout, i.stderr, i.stdin = &out, &errw, strings.NewReader("")
+	i.binPkg = map[string]map[string]reflect.Value{"fmt": vhCopyTable("fmt/fmt"), "log": vhCopyTable("log/log"), "flag": vhCopyTable("flag/flag")}
+	i.mapTypes = map[reflect.Value][]reflect.Type{}
+	fixStdlib(i)
+	name := vhLogFns[vhLogFn]
+	sym := i.binPkg["log"][name]
+	vReach("C13.log")
+	// exactly one private logger, created on the interpreter's stderr
+	vAssert("C13.log.private-logger", !vSymbolic() || (vEventCount("opaque:log.New") == 1 && vEventArgIs("opaque:log.New", 0, i.stderr)))
+	msg := "m"
+	vhExitCall(func() {
+		switch f := sym.Interface().(type) {
+		case func(int, string) error:
+			f(1, msg)
+		case func(...interface{}):
+			f(msg)
+		case func(string, ...interface{}):
+			f("%s", msg)
+		case func() int:
+			f()
+		case func() string:
+			f()
+		case func(int):
+			f(0)
+		case func(string):
+			f("")
+		case func(io.Writer):
+			f(&errw)
+		case func() io.Writer:
+			f()
+		default:
+			vAssert("C13.log.callable", false)
+		}
+	})
+	// the call reached a method of a *log.Logger, never the host's package-level function
+	vAssert("C13.log.redirected", vEventCount("opaque:log."+name) == 0 && (!vSymbolic() || vEventCount("opaque:(*log.Logger).") == 1))
+	if !vSymbolic() {
+		switch name {
+		case "Output", "Print", "Printf", "Println", "Panic", "Panicf", "Panicln", "Fatal", "Fatalf", "Fatalln":
+			vAssert("C13.log.redirected", strings.Contains(errw.String(), msg) && out.Len() == 0)
+		}
+	}
+}
+
+func vh_C13_flag() {
+	vhResetClock()
+	i := vhNewInterp()
+	var out, errw bytes.Buffer
+	i.stdout, i.stderr, i.stdin = &out, &errw, strings.NewReader("")
+	i.binPkg = map[string]map[string]reflect.Value{"fmt": vhCopyTable("fmt/fmt"), "flag": vhCopyTable("flag/flag")}
+	i.mapTypes = map[reflect.Value][]reflect.Type{}
+	fixStdlib(i)
+	vReach("C13.flag")
+	if vSymbolic() {
+		vAssert("C13.flag.panics-on-error", vEventCount("opaque:flag.NewFlagSet") == 1 && vEventArgIs("opaque:flag.NewFlagSet", 1, flag.PanicOnError))
+		vAssert("C13.flag.output", vEventArgIs("opaque:(*flag.FlagSet).SetOutput", 1, i.stderr))
+		return
+	}
+	fs, ok := i.binPkg["flag"]["CommandLine"].Interface().(*flag.FlagSet)
+	vAssert("C13.flag.panics-on-error", ok && fs != flag.CommandLine && fs.ErrorHandling() == flag.PanicOnError)
+	vAssert("C13.flag.output", ok && fs.Output() == io.Writer(&errw))
 }
